@@ -33,7 +33,8 @@ var (
 
 // generic subjects: name -> (ways to make, mutations)
 var histSubjects = map[string][2][]string{
-	"senc": {{"create0", "create2iv8", "create2iv16", "create2sub", "new1iv16", "decoded-parsed"}, {"add-iv", "add-iv-sub", "add-iv,add-iv-sub", "add-iv-sub,add-iv-sub"}},
+	"senc": {{"create0", "create2iv8", "create2iv16", "create2sub", "new1iv16", "decoded-parsed", "decoded-parsed-emptysubs"}, {"add-iv", "add-iv-sub", "add-iv,add-iv-sub", "add-iv-sub,add-iv-sub", "none"}},
+	"vsen": {{"avc1", "hev1+btrt", "decoded"}, {"name-2byte", "name-3byte", "name-empty", "name-31", "none"}},
 	"saiz": {{"new", "new+iv", "new+sub"}, {"add-iv", "add-sub", "add-iv,add-sub", "add-sub,add-iv"}},
 	"trun": {{"create", "create+2", "decoded"}, {"add1", "add3", "addsamples", "setfirst", "rmfirst", "setfirst,add1", "add1,rmfirst"}},
 	"tfdt": {{"small", "big", "decoded0", "decoded1"}, {"set-big", "set-small", "set-limit", "set-limit-1"}},
@@ -46,7 +47,7 @@ var histSubjects = map[string][2][]string{
 	"mdat": {{"empty", "data", "parts"}, {"set-lazy", "add-data", "set-data"}},
 }
 
-var histSubjectNames = []string{"senc", "saiz", "trun", "tfdt", "stsd", "emsg", "ftyp", "styp", "stsc", "ctts", "mdat"}
+var histSubjectNames = []string{"vsen", "senc", "saiz", "trun", "tfdt", "stsd", "emsg", "ftyp", "styp", "stsc", "ctts", "mdat"}
 
 func pickObs(r *runner.Rand) string {
 	if r.Chance(1, 6) {
@@ -475,6 +476,28 @@ func histMake(subj, mk string) mp4.Box {
 				return nil
 			}
 			return s
+		case "decoded-parsed-emptysubs":
+			// the subsample form with a subsample_count of 0 for every sample (whole samples protected)
+			b := histDecode(rawBox("senc", rb32(2), rb32(2), histBytes(8, 5), []byte{0, 0}, histBytes(8, 6), []byte{0, 0}))
+			s, ok := b.(*mp4.SencBox)
+			if !ok || s.ParseReadBox(8, nil) != nil {
+				return nil
+			}
+			return s
+		}
+	case "vsen":
+		switch mk {
+		case "avc1":
+			return mp4.CreateVisualSampleEntryBox("avc1", 1280, 720, nil)
+		case "hev1+btrt":
+			return mp4.CreateVisualSampleEntryBox("hev1", 1920, 1080, &mp4.BtrtBox{BufferSizeDB: 1, MaxBitrate: 2, AvgBitrate: 3})
+		case "decoded":
+			v := mp4.CreateVisualSampleEntryBox("avc1", 640, 360, &mp4.PaspBox{HSpacing: 1, VSpacing: 1})
+			var buf bytes.Buffer
+			if v.Encode(&buf) != nil {
+				return nil
+			}
+			return histDecode(buf.Bytes())
 		}
 	case "saiz":
 		s := mp4.NewSaizBox(4)
@@ -596,7 +619,24 @@ func histMake(subj, mk string) mp4.Box {
 
 // histMutate applies one public mutator (false: not applicable).
 func histMutate(b mp4.Box, m string) bool {
+	if m == "none" {
+		return true
+	}
 	switch x := b.(type) {
+	case *mp4.VisualSampleEntryBox:
+		switch m {
+		case "name-2byte":
+			x.CompressorName = "Kodierer f\u00fcr Video"
+		case "name-3byte":
+			x.CompressorName = "\u7f16\u7801\u5668 H.264"
+		case "name-empty":
+			x.CompressorName = ""
+		case "name-31":
+			x.CompressorName = strings.Repeat("n", 31)
+		default:
+			return false
+		}
+		return true
 	case *mp4.SencBox:
 		iv := x.GetPerSampleIVSize()
 		if x.SampleCount == 0 {
